@@ -470,4 +470,46 @@ example : check exDefs 5 (.referenced "\n   tN\n ".toList none) (.num 2) = .num 
     check exDefs 5 (.referenced "\n   tN\n ".toList none) (.num 3) = .null ∧
     check exDefs 5 (.collReferenced " tN".toList none) (.list [.num 1, .num 2]) = .list [.num 1, .num 2] := by decide
 
+/-! ## a null item of a collection of a definition that stands for `Any` (finding F73-null-item-any-alias)
+
+Every value conforms to `Any`, null is a value, a reference to a definition means what that definition means: a list
+with a null item conforms to a collection of `tAlias` when `tAlias` is nothing but `Any` — as it does to a collection
+of `Any` itself (`any_unchanged`).  The code rejects it: the closure of an item definition answers with the checked
+value only, and null is both "this item does not conform" and "this item is null and conforms"; the item loop of
+`build_collection_of_referenced_type_evaluator` (`item_definition.rs:467-474`) takes the first reading always. -/
+
+-- FULL STATEMENT (not provable of the current code, finding F73-null-item-any-alias):
+--   ∀ defs fuel n av xs, (∀ x ∈ xs, x conforms to the definition `n` names — every `x` when that definition stands
+--   for `Any`, null included) → check defs fuel (.collReferenced n av) (.list xs) = checkAllowed (.list xs) av
+-- The statements that hold exclude it through `Spec.conformsWith` (an item of a collection of a named definition is
+-- not null): `check_conforming_id`, `check_eq_spec` are the partial statements.
+
+/-- **The extent of the finding, for every set of definitions**: null is checked to null by every item definition
+(conforming or not — the two cannot be told apart from the answer), hence a list with a null item is null as a whole
+for a collection of *any* named definition, whatever that definition means — also when it means `Any`. -/
+theorem null_item_of_named_collection_rejected (defs : Defs) (fuel : Nat) :
+    (∀ t, check defs fuel t .null = .null) ∧
+    (∀ n av xs, isAny n = false → DTValue.null ∈ xs → check defs fuel (.collReferenced n av) (.list xs) = .null) := by
+  refine ⟨fun t => checkWith_null _ (evaluator_null defs fuel) t, fun n av xs ha hx => ?_⟩
+  simp only [check, checkWith, ha]
+  cases hk : evaluator defs fuel (trim n) with
+  | none => rfl
+  | some f =>
+    simp only [Bool.false_eq_true, if_false]
+    rw [refLoop_null f (evaluator_null defs fuel _ f hk) xs hx]
+
+/-- The witness: `tAlias` refers to `Any` and nothing else.  Null conforms to `tAlias` and `[1, null]` reaches the
+logic unchanged when typed *collection of Any* (`tList`), but typed *collection of tAlias* (`tLA`) it is replaced by
+null — although the FEEL type of `tLA` is the one of `tList`, list of `Any`. -/
+theorem any_alias_collection_null_item_counterexample :
+    conforms anyDefs 5 (.referenced ['t', 'A', 'l', 'i', 'a', 's'] none) .null = true ∧
+    varCheck anyDefs 5 ['x'] (.named ['t', 'L', 'i', 's', 't']) (.ctx [(['x'], .list [.num 1, .null])]) =
+      .list [.num 1, .null] ∧
+    varCheck anyDefs 5 ['x'] (.named ['t', 'L', 'A']) (.ctx [(['x'], .list [.num 1, .null])]) = .null ∧
+    typeName anyDefs 5 ['t', 'L', 'A'] = typeName anyDefs 5 ['t', 'L', 'i', 's', 't'] := by
+  refine ⟨by decide, by decide, by decide, rfl⟩
+
+/-- Non-vacuity of `null_item_of_named_collection_rejected`: `tAlias` is no spelling of `Any`. -/
+example : isAny ['t', 'A', 'l', 'i', 'a', 's'] = false ∧ DTValue.null ∈ [DTValue.num 1, .null] := by decide
+
 end Dmn.ID
